@@ -170,6 +170,8 @@ def run(ctx):
     config_valued_panics(ctx, "R16-g")
     path_parent_unwraps(ctx, "R16-h")
     parsed_integers_not_unwrapped(ctx, "R16-j")
+    constant_subtraction_preconditions(ctx, "R16-n")
+    fallible_results_not_unwrapped(ctx, "R16-o")
     token_loops_make_progress(ctx, "R16-k")
     dependency_preconditions(ctx, "R16-l")
     stdin_never_reaches_file_emitters(ctx, "R16-m")
@@ -757,3 +759,144 @@ def stdin_never_reaches_file_emitters(ctx, rid):
                         % (why, [(k[-30:], variant_name(v)) for k, v in path.decisions if "emit_mode" in k or "check" in k][:4]),
                         ["%s:%d" % (f.file, f.line)])
     r.floor(rid, n, 3, "paths of format_string that build the Session")
+
+
+def constant_subtraction_preconditions(ctx, rid):
+    """R16-n: `param - k` in a callee is covered by `param ≥ k` at every call site (per-path linear arithmetic)"""
+    import linarith as la
+    from absint import explore, vkey, TooManyPaths
+    from common import natural_loops
+    p, r = ctx.p, ctx.r
+    r.rule(rid, "a workspace function that subtracts a positive constant from one of its `usize` parameters without first comparing "
+                "it (`\"$\".repeat(dollar_count - 1)`) has the precondition `param ≥ k`.  At every call site the argument is shown "
+                "to satisfy it from the branch conditions of the path alone: the caller is explored from the head of the innermost "
+                "loop around the call (every variable unknown there) or from its entry, and `arg ≥ k` must follow from the decisions "
+                "taken before the call (Fourier–Motzkin refutation of `arg ≤ k−1`).  Sites that rely on a loop invariant instead "
+                "are listed in tables/C16.toml, each with the invariant; any other unprovable site is reported — the subtraction "
+                "panics (debug) or wraps into a huge allocation (release)")
+    exc = {e["site"]: e["reason"] for e in ctx.table("C16").get("precondition_by_invariant", [])}
+    pre = {}
+    for g in p.by_crate["rustfmt_nightly"]:
+        if g.kind == "Closure":
+            continue
+        for bb, i, st in g.stmts():
+            if st[0] != "=":
+                continue
+            rv = st[2]
+            if rv[0] not in ("bin", "checked", "cbin") or "Sub" not in str(rv[1]):
+                continue
+            a, b = rv[2], rv[3]
+            if not (b[0] == "k" and isinstance(b[2], int) and not isinstance(b[2], bool) and b[2] > 0 and a[0] != "k" and not a[1][1]):
+                continue
+            src = a[1][0]
+            if not (1 <= src <= g.argc):
+                d = g.single_def(src)
+                if d and d[1] == "assign" and d[2][2][0] == "use" and d[2][2][1][0] != "k" and not d[2][2][1][1][1]:
+                    src = d[2][2][1][1][0]
+            if not (1 <= src <= g.argc) or "usize" not in g.locals[src]:
+                continue
+            guarded = False
+            for sb in range(len(g.blocks)):
+                t = g.term(sb)
+                if t[0] == "switch" and t[1][0] != "k" and sb != bb and bb in g.reachable(sb):
+                    if src in g.derived_from(t[1][1][0])["args"]:
+                        guarded = True
+            if not guarded:
+                pre[g.id] = (src, b[2], st[3])
+    nsites = 0
+    for gid, (pi, k, line) in sorted(pre.items()):
+        G = p.fns[gid]
+        r.instance(rid, "%s requires parameter %d ≥ %d" % (short(gid), pi, k), "ok", "%s:%d" % (G.file, line))
+        for F in p.by_crate["rustfmt_nightly"]:
+            sites = [c for c in F.calls() if c.resolved == gid]
+            if not sites:
+                continue
+            loops = natural_loops(F)
+            for c in sites:
+                nsites += 1
+                inner = [(h, body) for h, body in loops if c.bb in body]
+                start = min(inner, key=lambda x: len(x[1]))[0] if inner else 0
+                where = "in a loop" if inner else "after the loop" if loops else "straight-line"
+                site = "%s -> %s (%s)" % (short(F.id), short(gid), where)
+                try:
+                    paths = explore(F, start=start, is_effect=lambda d: d.resolved == gid and d.bb == c.bb, pure=lambda d: True,
+                                    max_paths=20000, program=p)
+                except TooManyPaths as e:
+                    r.undecidable(rid, "%s: %s" % (site, e))
+                    continue
+                npaths, bad = 0, []
+                for path in paths:
+                    for E in path.effects:
+                        if E.kind != "call" or E.bb != c.bb:
+                            continue
+                        npaths += 1
+                        arg = E.args[pi - 1]
+                        proven = True
+                        try:
+                            cons = []
+                            for kk, v in path.decisions[:E.ndec]:
+                                alt = la.decision_constraints(kk, v)
+                                if alt is not None:
+                                    cons.append(alt)
+                            for cres, R in la.lin(arg):
+                                neg = [la._add(R, la.const(k - 1), -1)]
+                                forms = [R] + [x for a2 in cons for alt in a2 for x in alt]
+                                ok, wit = la.entails(cons + [[cres]], [neg], nonneg=sorted(la.atoms_of(forms)))
+                                proven = proven and ok
+                        except la.NonLinear:
+                            proven = False
+                        if not proven:
+                            bad.append((vkey(arg), [("%s=%s" % (short(kk)[-30:], v)) for kk, v in path.decisions[:E.ndec]][-3:]))
+                if bad and site in exc:
+                    r.instance(rid, site, "ok", c.loc(), "by invariant: %s" % exc[site][:120])
+                    continue
+                r.instance(rid, site, "violation" if bad else "ok", c.loc(), "%d paths reach the call, %d unproven" % (npaths, len(bad)))
+                if bad:
+                    r.violation(rid, "%s: the argument is not shown to be ≥ %d" % (site, k),
+                                "on a path the call is reached with argument %s after %s; nothing on the path bounds it from below, "
+                                "and the callee computes `argument - %d`" % (bad[0][0][:40], bad[0][1], k), [c.loc(), "%s:%d" % (G.file, line)])
+    r.floor(rid, len(pre), 1, "functions with a `parameter - constant` precondition")
+    r.floor(rid, nsites, 2, "call sites of such functions")
+
+
+def fallible_results_not_unwrapped(ctx, rid):
+    """R16-o: a result that fails for ordinary inputs is never unwrapped"""
+    import c17
+    from common import operand_origin
+    p, r = ctx.p, ctx.r
+    r.rule(rid, "(a) the Option<String> / RewriteResult of a rewriter (any workspace function named rewrite_* / format_* or a "
+                "Rewrite::rewrite* method) is never consumed by unwrap / expect: rewriters answer None/Err whenever something does "
+                "not fit the width, which some input always achieves (`enum E where <110 chars>: B {}`).  (b) the Result of a "
+                "workspace function named parse_* / from_str whose error type is not Infallible is never consumed by unwrap / "
+                "expect outside the configuration module: what is parsed is source text (`0b1f32` is a literal the parser accepts)")
+    n = 0
+    for f in p.by_crate["rustfmt_nightly"]:
+        if "::tests::" in f.id or "::test::" in f.id or "unit_tests" in f.id:
+            continue
+        for u in f.calls():
+            last = u.name.rsplit("::", 1)[-1]
+            if last not in ("unwrap", "expect", "unwrap_unchecked") or not ("Option" in u.name or "Result" in u.name) \
+                    or not u.args or u.args[0][0] == "k":
+                continue
+            o = operand_origin(f, u.args[0])
+            if o[0] != "call":
+                continue
+            c = o[1]
+            h = p.fns.get(c.resolved or "")
+            if h is None or h.crate != "rustfmt_nightly":
+                continue
+            n += 1
+            hl = h.id.rsplit("::", 1)[-1]
+            rt = h.locals[0]
+            rewriter = (c17.formatter(c) or (c.declared or "").startswith("rustfmt_nightly::rewrite::Rewrite::rewrite")) and (
+                "String" in rt or "Cow" in rt)
+            parser = (hl.startswith("parse_") or hl == "from_str") and rt.startswith("std::result::Result") and "Infallible" not in rt \
+                and not short(f.id).startswith("config::")
+            bad = rewriter or parser
+            r.instance(rid, "%s unwraps %s" % (short(f.id).split("::{closure")[0], short(h.id)), "violation" if bad else "ok", u.loc(),
+                       "rewriter" if rewriter else "parser" if parser else "value-level invariant (not judged)", nontrivial=bad)
+            if bad:
+                r.violation(rid, "%s unwraps the result of %s" % (short(f.id).split("::{closure")[0], short(h.id)),
+                            "the callee fails for ordinary inputs (%s); the unwrap turns that into a panic" %
+                            ("something does not fit the width" if rewriter else "text that is not in the expected form"), [u.loc()])
+    r.floor(rid, n, 5, "unwrap / expect sites on results of workspace functions")
